@@ -1,6 +1,6 @@
 (* C21 — A commit and its working-set update land together.  Property theorems only. *)
 From Coq Require Import NArith List Bool.
-From Dolt Require Import Base.Str C20.Model C20.Spec C21.Model C21.Spec C21.Corr C21.Proofs.
+From Dolt Require Import Base.Str C20.Model C20.Spec C20.Corr C20.Proofs C21.Model C21.Spec C21.Corr C21.Proofs.
 Import ListNotations.
 Local Open Scope N_scope.
 
@@ -27,3 +27,19 @@ Theorem C21_cws_sets_both :
     pair_of (effect m (OCommitWS r wn exp prevws new newws force)) r wn = (new, newws).
 Proof. exact cws_sets_both. Qed.
 Print Assumptions C21_cws_sets_both.
+
+Theorem C21_oracle_model_obs :
+  forall i : C21.Corr.input, C20.Corr.i_conc i = false -> C21.Corr.oracle i (C21.Corr.model_obs i) = true.
+Proof. exact C21.Proofs.oracle_model_obs. Qed.
+Print Assumptions C21_oracle_model_obs.
+
+(* bridge to C02/C03: their recovered-root statement is the hypothesis Hrec *)
+Theorem C21_crash_recovered_pair_atomic :
+  forall (w : world) (m0 : refs) (progs : cid -> list op) (sched : list (cid * label)) (r wn : name),
+    r <> wn -> only_cws r wn progs ->
+    forall (k : nat) (recovered : refs),
+      let cfg := run w (firstn k sched) (init m0 progs) in
+      forall Hrec : exists j : nat, recovered = replay w m0 (firstn j (g_log cfg)),
+      pair_from m0 (g_log cfg) r wn (pair_of recovered r wn).
+Proof. exact crash_recovered_pair_atomic. Qed.
+Print Assumptions C21_crash_recovered_pair_atomic.
